@@ -6,6 +6,8 @@ import (
 
 	"github.com/trustbloc/sidetree-go/pkg/api/protocol"
 	"github.com/trustbloc/sidetree-go/pkg/docutil"
+	"github.com/trustbloc/sidetree-go/pkg/patch"
+	"github.com/trustbloc/sidetree-go/pkg/versions/1_0/operationparser/patchvalidator"
 	"github.com/trustbloc/sidetree-go/pkg/vdr/sidetreelongform/dochandler"
 	"github.com/trustbloc/sidetree-go/pkg/versions/1_0/doctransformer/didtransformer"
 	"github.com/trustbloc/sidetree-go/pkg/versions/1_0/doctransformer/doctransformer"
@@ -101,7 +103,8 @@ func transformKind(c *proto.Case) interface{} {
 	stateBefore := jsonRound(rmJSON(rm))
 	res, err := tr.TransformDocument(rm, info)
 	if err != nil {
-		return M{"class": "err"}
+		// would patch validation have let these keys into a document?
+		return M{"class": "err", "keys_validated": keysPassValidation(rm)}
 	}
 	out := M{"class": "ok", "result": resultJSON(res)}
 	// the state handed in is the caller's: it must come back untouched, and transforming it a
@@ -238,4 +241,24 @@ func tinfoKind(c *proto.Case) interface{} {
 		ti = docutil.GetTransformationInfoForUnpublished(c.Str("ns"), c.Str("domain"), c.Str("label"), c.Str("suffix"), c.Str("jcs"))
 	}
 	return M{"info": jsonRound(map[string]interface{}(ti))}
+}
+
+// keysPassValidation: the state's keys, offered to the patch validator as one add-public-keys patch.
+func keysPassValidation(rm *protocol.ResolutionModel) bool {
+	if rm == nil || rm.Doc == nil {
+		return false
+	}
+	keys, ok := rm.Doc["publicKey"].([]interface{})
+	if !ok || len(keys) == 0 {
+		return false
+	}
+	b, err := json.Marshal(keys)
+	if err != nil {
+		return false
+	}
+	p, err := patch.NewAddPublicKeysPatch(string(b))
+	if err != nil {
+		return false
+	}
+	return patchvalidator.Validate(p) == nil
 }
